@@ -7,6 +7,7 @@ A query is *discharged* only if the path tree was exhausted, no path ended unkno
 per-path timeout, unsupported operation) and at least one path was confirmed.  A refuted path yields the
 concrete model of the harness arguments.  See DESIGN.md section 2.3.
 """
+import re
 import inspect
 import multiprocessing
 import os
@@ -191,6 +192,10 @@ def decide(fn, budget_s=60.0, per_path_timeout=20.0, max_paths=10 ** 9, collect_
                 cpu_s=round(process_time() - t0, 3))
 
 
+_STUB_MISS = re.compile(r"'(Fake|Multi|IntStub|Echo|Recorder|Stream|WriteStream|Counting)\w*' object has no attribute|"
+                        r"(Fake|Echo)\w+\.\w+\(\) (takes|got|missing)")
+
+
 def run_native(fn, args):
     """Run the harness on concrete arguments with plain CPython (no tracing).
 
@@ -330,6 +335,10 @@ def _execute(q):
                 rep = st in ("false", "exception")
                 rdetail = "native harness run: %s %s %s" % (st, cls, detail)
                 key = q.family
+            # an implementation that calls something a stub does not offer (e.g. ElementTree.fromstring instead of
+            # parse) says nothing about the property: harness error, never a violation
+            if rep and _STUB_MISS.search("%s %s" % (rdetail, c.get("what", ""))):
+                rep, rdetail = False, "the implementation uses an interface the environment stub does not provide: %s" % rdetail
             c["replay"] = [bool(rep), rdetail, key]
             c["args"] = _jsonable(c["args"])
             (r["violations"] if rep else r["unreproduced"]).append(c)
